@@ -124,8 +124,9 @@ _seq("C06", "acknowledgements are truthful",
      "exhaustive fault-position enumeration over a recorded history", level="fault_enumeration")
 _seq("C13", "merge is all-or-nothing",
      "Merge over 3-4 files in 1-2 groups is re-run with a failure at every position of every store call kind (iterator, CreateFile, OpenFile, Seek, Read, Write, Close, Abort, Update, TombstoneFile), singly and in pairs; committed-xor-unchanged oracle on both stores, call log, return values and query answers; single-flight with a Merge held inside CreateFile",
-     "plain build; MetaStore with atomic Update",
-     "exhaustive fault-position enumeration over a recorded history", level="fault_enumeration")
+     "plain build; MetaStore with atomic Update; concurrent part (scheduler engine): 2-3 overlapping Merge calls over tombstone-deletes / deferred-GC / object-like DataStores and both in-memory MetaStores, preemption bound 1 (2 thorough): each returns nil or ErrMergeInProgress, at least one commits, content stays exactly once",
+     "exhaustive fault-position enumeration over a recorded history, plus controlled-scheduler exploration of overlapping Merge calls", level="fault_enumeration",
+     extra_parts=[{"engine": "sched", "family": "C13"}], budget={"quick": 200, "thorough": 1500})
 _seq("C15", "filesystem store is crash-consistent",
      "every prefix of the os-level operation log of 4 histories and of every single-fault abort path yields process-crash and power-loss directory states (torn writes, unsynced data absent/present, every prefix or subset of unsynced directory operations); each distinct state is materialised and recovered by a fresh engine",
      "verdict is relative to the stated durability model; the operation log is produced by the implementation itself through the os shim placed by the build overlay",
